@@ -342,6 +342,38 @@ def check_one_hot(spec):
     return Case(nontrivial_layout(spec), [])
 
 
+def check_stacked(spec):
+    """chains of 2-3 label-rewriting wrappers: coherence, range and purity must survive stacking"""
+    import kappadata.wrappers as W
+    from kappadata.wrappers.dataset_wrappers.swap_label_wrapper import SwapLabelWrapper
+    from kappadata.wrappers.sample_wrappers.semi_wrapper import SemiWrapper
+    n = len(spec["classes"])
+    if spec["C"] < 2:
+        raise Refused("binary (1-dim) class shape is not used for stacks: ClassGroupsWrapper does not support it")
+
+    def build(root):
+        ds = root
+        for k, layer in enumerate(spec["chain"]):
+            kind, a = layer["k"], layer["a"]
+            C = ds.getshape_class()[0]
+            if kind == "groups":
+                divs = [d for d in range(1, C + 1) if C % d == 0]
+                ds = W.ClassGroupsWrapper(ds, classes_per_group=divs[a % len(divs)], shuffle=bool(a % 2), seed=a)
+            elif kind == "super":
+                ds = W.RandomSuperclassWrapper(ds, classes_per_superclass=1 + a % max(1, C), superclass_splits=1 + a % 2, seed=a)
+            elif kind == "swap":
+                ds = SwapLabelWrapper(ds, p=[0.0, 0.3, 1.0][a % 3], seed=a)
+            elif kind == "semi":
+                ds = SemiWrapper(semi_percent=[0.0, 0.4, 1.0][a % 3], seed=a, dataset=ds)
+            elif kind == "allgather":
+                ds = W.AllgatherClassWrapper(ds, world_size=1 + a % n)
+            elif kind == "overwrite":
+                ds = W.OverwriteClassesWrapper(ds, classes=[(j * 3 + a) % C for j in range(n)])
+        return ds
+    w, lab, root = common("stack:" + "+".join(l["k"] for l in spec["chain"]), spec, build)
+    return Case(True, [l["k"] for l in spec["chain"]])
+
+
 # ------------------------------------------------------------------ strategies
 def L(extra, unlabeled=False, internal=False, **kw):
     base = with_layout(extra, min_n=1, allow_unlabeled=unlabeled, **kw)
@@ -370,7 +402,11 @@ def F(name, fn, strat, q=500, t=6000):
                  shards={"quick": 1, "thorough": 4}, min_nontrivial={"quick": q // 12, "thorough": t // 12}, case_timeout=60)
 
 
+S_STACKED = L(st.fixed_dictionaries({"chain": st.lists(st.fixed_dictionaries({
+    "k": st.sampled_from(["groups", "super", "swap", "semi", "allgather", "overwrite"]), "a": st.integers(0, 50)}), min_size=2, max_size=3)}))
+
 FACETS = [
+    F("stacked-wrappers", check_stacked, S_STACKED, q=600, t=8000),
     F("class-groups", check_class_groups, S_GROUPS),
     F("random-superclass", check_random_superclass, S_SUPER),
     F("swap-label", check_swap_label, S_SWAP),
